@@ -721,7 +721,7 @@ class C18(PropCheck):
         'doc-bookmark-tree': ['page-heights-differ'],
         'doc-pdf-outlines': ['page-heights-differ'],
         'doc-page-subset': ['pages-dropped', 'page-repeated', 'pages-reordered', 'link-to-unselected-page', 'links',
-                            'outlines', 'second-write', 'second-write-ok', 'second-write-error'],
+                            'outlines', 'attachments', 'second-write-of-attachments'],
         'doc-gather': ['anchors', 'links', 'bookmarks', 'inline-link-with-horizontal-margin'],
         'link-attribute-direct': ['none', 'internal', 'external', 'fragment-only', 'same-document', 'same-path-other-query',
                                   'other-document-with-fragment', 'no-fragment', 'no-base', 'empty', 'fragment-escaped',
@@ -1287,8 +1287,7 @@ class C18(PropCheck):
     def finding_replays(self):
         return {'pdf-string-cr': D.replay_pdf_string_cr,
                 'embedded-files-duplicate-keys': D.replay_embedded_files_duplicate_keys,
-                'anchor-id-shadowed-by-name': D.replay_anchor_id_shadowed,
-                'attachment-second-write-crash': D.replay_attachment_second_write}
+                'anchor-id-shadowed-by-name': D.replay_anchor_id_shadowed}
 
     def replay(self, data):
         inp = data.get('input', {})
@@ -1526,7 +1525,7 @@ MANIFEST = {
             'for a bare fragment or the document\'s own URL (same scheme, host, path and query) and then targets the unquoted '
             'fragment, otherwise it carries the resolved URL; unquote undoes iri_to_uri; the clickable rectangle of a box is '
             'its border box (inline: over the line height) computed from the used values; /Dests is sorted by the bytes of '
-            'its keys for every set of names, and so is /EmbeddedFiles for every list of attachments (equal names in document order); every outline entry points into its own page (its number, its height) whatever the page sizes. Also: the bookmark builder never fails on levels >= 1 however the list is split over pages, '
+            'its keys for every set of names, and so is /EmbeddedFiles for every list of attachments (equal names in document order); every outline entry points into its own page (its number, its height) whatever the page sizes; a PDF written from a selection of the pages (Document.copy) keeps on each page exactly the links of the whole document minus the internal ones whose anchor is on no selected page, and a document written again embeds the same files. Also: the bookmark builder never fails on levels >= 1 however the list is split over pages, '
             'the pre-order of its tree is the bookmark list, depths follow the nearest-smaller-level rule and the '
             'result does not depend on the page split; add_outlines links siblings both ways, sets First/Last/Parent '
             'and Count = visible descendants; resolve_links emits no dangling internal link and lists every anchor '
